@@ -21,6 +21,10 @@ CONSTANTS
   TaxDen = 10
   MaxEdits = 1
   DTs = {1}
+  EditTFs = {}
+  EditCaps = {}
+  MaxCalls = 0
+  Sends = {}
 VIEW View
 INVARIANTS
   Inv_C17_StateMirror
